@@ -510,12 +510,36 @@ def pmap(fn, items, workers=None, chunksize=1):
                 raise Machinery(val)
             yield val
         return
-    with mp.get_context('fork').Pool(workers, initializer=_worker_init) as pool:
-        for tag, val in pool.imap(_call, [(fn, it) for it in items], chunksize):
-            if tag != 'ok':
-                pool.terminate()
-                raise Machinery(val)
-            yield val
+    pool = _get_pool(workers)
+    for tag, val in pool.imap(_call, [(fn, it) for it in items], chunksize):
+        if tag != 'ok':
+            _drop_pool()
+            raise Machinery(val)
+        yield val
+
+
+_POOL = None
+
+
+def _get_pool(workers):
+    """one persistent worker pool per check run: workers keep their runner process between calls"""
+    global _POOL
+    if _POOL is None:
+        import atexit
+        _POOL = mp.get_context('fork').Pool(workers, initializer=_worker_init)
+        atexit.register(_drop_pool)
+    return _POOL
+
+
+def _drop_pool():
+    global _POOL
+    if _POOL is not None:
+        try:
+            _POOL.terminate()
+            _POOL.join()
+        except Exception:
+            pass
+        _POOL = None
 
 
 def chunks(seq, n):
